@@ -1185,6 +1185,11 @@ class Model:
             return [x for x in seq if interp.truth(interp.call(f, [x], {}, node), node)]
         try:
             return fn(*args, **kwargs)
+        except (ValueError, TypeError) as ex:
+            if name in ('int', 'float') and args and isinstance(args[0], str | int | float | bool) or args and args[0] is None:
+                # a concrete conversion that fails in Python fails in the package as well
+                raise RaiseSignal(type(ex).__name__, node, interp.where(node), (str(ex),)) from None
+            raise AnalysisError(f'builtin {name} failed at {interp.where(node)}: {ex}') from None
         except Exception as ex:  # noqa: BLE001
             raise AnalysisError(f'builtin {name} failed at {interp.where(node)}: {ex}') from None
 
